@@ -482,6 +482,109 @@ pub fn nested_choice_ident(m: &Model, ctx: &mut Ctx, rule: &str) {
     }
 }
 
+/// C07.guard (contradiction rule over link_with_type): an arm whose guard states what the nested value is
+/// (`matches![**value, ASN1Value::A(_)]`) and whose body then asks for another form (`if let ASN1Value::B(..) = &**value`)
+/// believes two things at once — the body can never run, and the conversion the arm exists for is silently skipped.
+pub fn guard_contradictions(m: &Model, ctx: &mut Ctx, rule: &str) {
+    let Some(f) = m.fns.iter().find(|f| f.name == "link_with_type" && f.self_ty.as_deref() == Some("ASN1Value")) else {
+        ctx.fail_closed(rule, "anchor not found: ASN1Value::link_with_type");
+        return;
+    };
+    let Some(mt) = model::matches_in(&f.block).into_iter().max_by_key(|mt| mt.arms.len()) else {
+        ctx.fail_closed(rule, "link_with_type: no match");
+        return;
+    };
+    let variant_after = |t: &str, key: &str| -> Option<String> {
+        let i = t.find(key)?;
+        Some(t[i + key.len()..].chars().take_while(|c| c.is_alphanumeric()).collect())
+    };
+    let mut n = 0;
+    for arm in mt.arms.iter() {
+        let Some((_, g)) = &arm.guard else { continue };
+        let gt = tok(g);
+        // matches![**value, ASN1Value::X(..)] (also `matches!(&**value, ..)`)
+        if !gt.starts_with("matches!") || !gt.contains("value") {
+            continue;
+        }
+        let Some(stated) = variant_after(&gt, "ASN1Value::") else { continue };
+        struct IfLets { out: Vec<(String, usize)> }
+        impl model::DeepCb for IfLets {
+            fn expr(&mut self, e: &syn::Expr) {
+                if let syn::Expr::Let(l) = e {
+                    let s = tok(&l.expr);
+                    if s.contains("**value") {
+                        self.out.push((tok(&l.pat), span_line(l)));
+                    }
+                }
+            }
+        }
+        let mut c = IfLets { out: vec![] };
+        model::deep_walk_expr(&arm.body, &mut c);
+        for (pat, line) in c.out {
+            let Some(asked) = variant_after(&pat, "ASN1Value::") else { continue };
+            n += 1;
+            ctx.oblige(rule, &format!("arm:{}:{}", stated, asked), true);
+            if asked != stated {
+                ctx.violate(rule, &format!("guard-contradiction:{}-{}", stated, asked), &f.file, line,
+                    &format!("an arm of link_with_type is guarded by `{}` and its body asks `if let {} = ..value`: the nested value cannot be both, so the body never runs and the arm links nothing (a {} value reached through a type reference keeps the form the lexer gave it)", gt.chars().take(70).collect::<String>(), pat.chars().take(40).collect::<String>(), asked));
+            }
+        }
+    }
+    ctx.floor(&format!("{}/guarded-arms", rule), n, 4);
+}
+
+/// C07.hex (through a reference): `'AB'H` / `'10101011'B` is a list of bits to the lexer. Under an OCTET STRING governor it
+/// becomes octets — also when the governor is reached through a type reference (`Key ::= OCTET STRING  k Key ::= 'AB'H`,
+/// a DEFAULT of a component of type Key), where the value is already wrapped in LinkedNestedValue. link_with_type is
+/// evaluated on that wrapped value: afterwards the nested value is OctetString([0xAB]), not the bits.
+pub fn octets_through_reference(m: &Model, ctx: &mut Ctx, rule: &str) {
+    use std::collections::BTreeMap as Map;
+    let Some(f) = m.fns.iter().find(|f| f.name == "link_with_type" && f.self_ty.as_deref() == Some("ASN1Value")) else {
+        ctx.fail_closed(rule, "anchor not found: ASN1Value::link_with_type");
+        return;
+    };
+    let consts = const_resolver(m);
+    let mut inl = inline_all(m, &["ASN1Value"]);
+    inl.retain(|k, _| !k.starts_with('.') || k == ".link_with_type");
+    let hook = |_: &Evaluator, name: &str, a: &[Val]| -> Option<Result<Val, String>> {
+        match (name, a.first()) {
+            (".borrow_mut", Some(v)) | (".borrow", Some(v)) if a.len() == 1 && matches!(v, Val::Ctor(..)) => Some(Ok(v.clone())),
+            ("grammar_error!", _) => Some(Ok(Val::Sym("GrammarError".into()))),
+            _ => None,
+        }
+    };
+    let ev = Evaluator { consts: &consts, call_hook: &hook, inline: Some(&inl) };
+    let params: Vec<String> = f.sig.inputs.iter().filter_map(|a| match a { syn::FnArg::Typed(t) => Some(tok(&t.pat)), _ => None }).collect();
+    let named = |n: &str, fields: Vec<(&str, Val)>| Val::Ctor(n.to_string(), vec![], fields.into_iter().map(|(k, v)| (k.to_string(), v)).collect::<Map<_, _>>());
+    let bits: Vec<Val> = [1, 0, 1, 0, 1, 0, 1, 1].iter().map(|b| Val::Bool(*b == 1)).collect();
+    let cases: Vec<(&str, Val, &str)> = vec![
+        ("OCTET STRING", Val::Ctor("OctetString".into(), vec![named("OctetString", vec![("constraints", Val::List(vec![]))])], Map::new()), "OctetString([171])"),
+        ("BIT STRING", Val::Ctor("BitString".into(), vec![named("BitString", vec![("constraints", Val::List(vec![])), ("distinguished_values", Val::none())])], Map::new()), "BitString([true,false,true,false,true,false,true,true])"),
+    ];
+    for (label, ty, want) in cases {
+        let key = format!("hstring-through-reference:{}", label.replace(' ', "-"));
+        ctx.oblige(rule, &key, true);
+        let value = Val::Ctor("LinkedNestedValue".into(), vec![], [("supertypes".to_string(), Val::List(vec![Val::Str("Key".into())])), ("value".to_string(), Val::Ctor("BitString".into(), vec![Val::List(bits.clone())], Map::new()))].into_iter().collect());
+        let mut env = Env::new();
+        env.insert("self".into(), value);
+        env.insert(params.first().cloned().unwrap_or("tlds".into()), crate::eval::new_map());
+        env.insert(params.get(1).cloned().unwrap_or("ty".into()), ty);
+        env.insert(params.get(2).cloned().unwrap_or("type_name".into()), Val::some(Val::Str("Key".into())));
+        match ev.eval_fn_body(&f.block, &mut env) {
+            Ok(Val::Ctor(ok, _, _)) if ok == "Ok" => {
+                let got = match env.get("self") { Some(Val::Ctor(_, _, fl)) => fl.get("value").map(|v| v.show()).unwrap_or_default(), o => format!("{:?}", o.map(|v| v.show())) };
+                if got != want {
+                    ctx.violate(rule, &key, &f.file, f.line,
+                        &format!("`Key ::= {}  k Key ::= 'AB'H` (also the DEFAULT of a component of type Key): after linking the value under the reference is `{}`, expected `{}` — the generators render the lexer's list of bits where the declared type holds {}", label, got.chars().take(90).collect::<String>(), want, if label.starts_with("OCTET") { "octets (`Key([true, false, ..].into_iter().collect())` does not type-check, no warning)" } else { "bits" }));
+                }
+            }
+            Ok(Val::Ctor(e, _, _)) if e == "Err" => {}
+            Ok(o) => ctx.fail_closed(rule, &format!("[{}]: {}", key, o.show().chars().take(100).collect::<String>())),
+            Err(e) => ctx.fail_closed(rule, &format!("[{}]: {}", key, e)),
+        }
+    }
+}
+
 /// C07.cstring: "character strings with doubled quotes unescaped" starts with finding the end of the literal: the scanner
 /// behind raw_string_literal (take_until_and_not(QUOTE, QUOTE QUOTE)) is evaluated on the text after an opening quotation
 /// mark — the literal ends at the first quotation mark that is not doubled, whatever follows later in the file.
@@ -1082,6 +1185,8 @@ Not applicable (run-time values): resolution of references, nested CHOICE/SEQUEN
     value_reference(m, ctx, "C07.ref");
     nested_choice_value(m, ctx, "C07.nest");
     nested_choice_ident(m, ctx, "C07.nest");
+    guard_contradictions(m, ctx, "C07.guard");
+    octets_through_reference(m, ctx, "C07.hex");
     implicit_defaults(m, ctx, "C07.struct", true);
     cstring_end(m, ctx, "C07.cstring");
     single_element_list(m, ctx, "C07.list");
